@@ -35,3 +35,45 @@ contract("AddingVisitor.visitNormalImport", source=M + "AddingVisitor.visitNorma
              "implies(is_none(result) or not val(result), import_stmt.import_info == import_info)"],
          note="`import pkg` is covered by an existing `import pkg.mod` and vice versa (the longer one stays) -- but `import ab` does not cover `import a`, and an "
               "aliased `import pkg.mod as m` covers nothing but itself (the import_info property setter is modelled as a plain field store)")
+
+# ---- adding `from m import a, b` to a module that already has `from m import ...` ---------------------------------------------------
+REG.records["ImportInfo"].fields.update({"module_name": "Str", "level": "Int"})   # (FromImport's fields, declared on the base: read only behind the same-class test)
+record("Prefs", fields={})
+record("Project", fields={"prefs": "Prefs"})
+REG.records["AddingVisitor"].fields.update({"project": "Project"})
+specfun("star", ["ImportInfo"], "Bool", note="import_info.is_star_import()")
+specfun("split_imports", ["Prefs"], "Bool", note="prefs.get('split_imports')")
+contract("ImportInfo.is_star_import", abstract=True, pure=True, heap_independent=True, params={"self": "ImportInfo"}, returns="Bool", ensures=["result == star(self)"])
+contract("Prefs.get", abstract=True, pure=True, heap_independent=True, params={"self": "Prefs", "key": "Str"}, returns="Bool",
+         ensures=["implies(key == 'split_imports', result == split_imports(self))"])
+contract("importinfo.FromImport", abstract=True, params={"module_name": "Str", "level": "Int", "names_and_aliases": NA}, returns="FromImport",
+         modifies=["ImportInfo.module_name[*]", "ImportInfo.level[*]", "ImportInfo.names_and_aliases[*]"],
+         ensures=["result.module_name == module_name", "result.level == level", "result.names_and_aliases == names_and_aliases",
+                  "forall(lambda o: implies(o != result, o.names_and_aliases == old(o.names_and_aliases) and o.module_name == old(o.module_name) and o.level == old(o.level)), 'ImportInfo')"],
+         note="FromImport.__init__ stores its three arguments (a fresh object: nothing else changes)")
+specdef("has_pair", {"s": NA, "x": "Tuple[Str,Opt[Str]]"}, "Bool", "exists(lambda k: 0 <= k and k < len(s) and s[k] == x)")
+contract("AddingVisitor.visitFromImport", source=M + "AddingVisitor.visitFromImport",
+         params={"self": "AddingVisitor", "import_stmt": "ImportStatement", "import_info": "FromImport"}, returns="Opt[Bool]",
+         requires=["import_stmt.import_info == import_info", "isinstance(self.import_info, FromImport)"],
+         modifies=["import_stmt.import_info", "ImportInfo.module_name[*]", "ImportInfo.level[*]", "ImportInfo.names_and_aliases[*]"], raises={},
+         locals={"new_pairs": NA},
+         ensures=[
+             # "merged into this statement" is only answered for a from-import of the same module at the same level
+             "implies(not is_none(result) and val(result), self.import_info.module_name == old(import_info.module_name) and self.import_info.level == old(import_info.level))",
+             # and then the statement, as it stands afterwards, imports from that module and covers every (name, alias) the added import asks for
+             # (a star import on either side covers everything; with split_imports only an identical list counts)
+             "implies(not is_none(result) and val(result), import_stmt.import_info.names_and_aliases == import_stmt.import_info.names_and_aliases and "
+             "        (star(old(import_info)) or import_stmt.import_info == self.import_info or "
+             "         forall(lambda k: implies(0 <= k and k < len(self.import_info.names_and_aliases), "
+             "                self.import_info.names_and_aliases[k] in import_stmt.import_info.names_and_aliases))))",
+             # what it imported before, it still imports, in the same order at the front
+             "implies(not is_none(result) and val(result) and not star(self.import_info) and not star(old(import_info)), "
+             "        forall(lambda k: implies(0 <= k and k < len(old(import_info.names_and_aliases)), "
+             "               import_stmt.import_info.names_and_aliases[k] == old(import_info.names_and_aliases)[k])))",
+             "implies(is_none(result) or not val(result), import_stmt.import_info == import_info)"],
+         loops={1: {"index": "i", "inv": [
+             "len(new_pairs) >= len(import_info.names_and_aliases)",
+             "forall(lambda k: implies(0 <= k and k < len(import_info.names_and_aliases), new_pairs[k] == import_info.names_and_aliases[k]))",
+             "forall(lambda k: implies(0 <= k and k < i, self.import_info.names_and_aliases[k] in new_pairs))",
+             "import_stmt.import_info == import_info"]}},
+         note="the names asked for are appended to the names already imported, none twice, none lost")
